@@ -107,6 +107,10 @@ def opLine (d : DState) : List String → Option (DState × String)
     let es ← entries.mapM cfgEntry
     let ix := indexed 0 es
     pure ({ d with st := { d.st with total := (← total.toNat?), powers := ix.map (fun p => (p.1, p.2.1)), exts := es.map (·.2) } }, "ok")
+  | ["last", n, h] => do
+    -- as `last n`, with the external block height recorded for the last observed event
+    let n ← n.toNat?
+    pure ({ st := { d.st with lastObserved := n, lastHeight := (← h.toNat?), lastByOracle := d.st.powers.map (fun p => (p.1, n)) }, focus := n + 1 }, "ok")
   | ["last", n] => do
     let n ← n.toNat?
     -- the chain has observed everything up to `n`, and so has every configured oracle
@@ -118,7 +122,7 @@ def opLine (d : DState) : List String → Option (DState × String)
     let kind := match res with
       | .ok => "ok" | .logicCheck => "err:logic-check" | .nonContiguous => "err:non-contiguous" | .panic => "panic"
     let exec := if s'.executed.length > before then ((hashHex c.path).take 16).toString else "-"
-    pure ({ d with st := s' }, s!"{kind} last={s'.lastObserved} exec={exec} pend={pendOf s' d.focus} atts={attTable s' d.focus}")
+    pure ({ d with st := s' }, s!"{kind} last={s'.lastObserved} h={s'.lastHeight} exec={exec} pend={pendOf s' d.focus} atts={attTable s' d.focus}")
   | ["pow", o, p] => do
     -- environment: the power `GetOracle(o).GetPower()` now has (`none`: the oracle is no longer found)
     let o ← o.toNat?
